@@ -21,10 +21,13 @@ Logged == [op |-> E.ev, owner |-> E.owner, delivered |-> E.res.delivered, path |
 
 SDown == IsEvent("Down") /\ Down(E.kind) /\ last' = Logged
 SUp   == IsEvent("Up") /\ Up(E.owner) /\ last' = Logged
+SRehang == IsEvent("Rehang") /\ Rehang(E.owner) /\ last' = Logged
+SLate == IsEvent("LateDisconnect") /\ LateDisconnect /\ last' = Logged
 MonStep == /\ l <= Len(TraceLog) /\ E.ev # "Reset" /\ l' = l + 1
-           /\ last' = Logged /\ UNCHANGED <<chain, cls, hist>>
+           /\ last' = Logged /\ UNCHANGED <<cls, hist>>
+           /\ chain' = IF E.ev = "Rehang" THEN <<"r2">> \o SubSeq(chain, Idx(E.owner), Len(chain)) ELSE chain
 
-TraceNext == Reset \/ (Strict /\ (SDown \/ SUp)) \/ (~Strict /\ MonStep)
+TraceNext == Reset \/ (Strict /\ (SDown \/ SUp \/ SRehang \/ SLate)) \/ (~Strict /\ MonStep)
 TraceSpec == TraceInit /\ [][TraceNext]_tvars
 TraceAccepted == TLCGet("stats").diameter - 1 = Len(TraceLog)
 =============================================================================
